@@ -10,7 +10,7 @@ from . import common
 
 ID = "C06"
 LEVEL = "exploration"
-BUDGET = {"quick": 1300, "thorough": 250000}
+BUDGET = {"quick": 3900, "thorough": 250000}
 TECHNIQUE = "property-based testing: pairs of generated plotfiles on one mesh with independent layouts; independent reader + concat-by-index-range model"
 RULE = ("Hypothesis-generated 3D mesh (1-3 nested levels, mixed extents, non-zero origin, anisotropic) instantiated "
         "twice with independent field lists (overlapping names), payloads (incl. special floats) and binary layouts "
@@ -26,7 +26,7 @@ ASSUMPTIONS = ["selections are given as a space-separated string or a list on ei
 
 @st.composite
 def cases(draw, tier="quick"):
-    spec = draw(plotgen.plot_specs(ndims=3, max_cells=2500 if tier == "quick" else 8000, max_fields=4,
+    spec = draw(plotgen.plot_specs(thin=True, ndims=3, max_cells=2500 if tier == "quick" else 8000, max_fields=4,
                                    payload_kinds=("coded", "random", "special")))
     f1 = spec["fields"]
     pool = [p for p in plotgen.FIELD_POOL]
